@@ -57,6 +57,11 @@ def run(ck):
     rc.run_property(ck, "mask_C13", rc.oracle_C13, fixed=rc.FIXED_HISTORIES + m,
                     extra_cov={"matrix_histories": len(m), "exhaustive_matrix":
                                "6 lifecycle states x 13 operations x {root, child}, each on asyncio and trio"})
+    ck.run_fixed(FIXED_SCENARIOS)
+
+
+FIXED_SCENARIOS = {"leaked_child_survives_gc": "C13:open-child-ignored",
+                   "closed_after_teardown_raised_baseexception": "C13:not-closed-after-teardown-raised"}
 
 
 def replay(ck, obj):
